@@ -32,8 +32,9 @@ SlackUs == 3000000           \* for the peer / idle expiry: the draining period 
 LInit(idleUs, lingers) ==
     [ idle     |-> idleUs,        \* negotiated idle timeout (smaller non-zero of the two), 0 = none
       lingers  |-> lingers,       \* the scenario leaves the connection idle instead of closing it
-      state    |-> [s \in Sides |-> ""],
-      closedEv |-> [s \in Sides |-> 0],     \* connection_closed events logged
+      state    |-> <<>>,                    \* <<side, connection (qlog group id)>> -> last connection state logged
+      stateAt  |-> <<>>,                    \* ... and when it was logged
+      closedEv |-> <<>>,                    \* <<side, connection>> -> connection_closed events logged
       closeAt  |-> [s \in Sides |-> -1],    \* virtual time of the application's close call (-1: none)
       termAt   |-> [s \in Sides |-> -1],    \* when the application learnt the connection is over
       terms    |-> [s \in Sides |-> 0],
@@ -50,14 +51,21 @@ Put(f, x, v) == [y \in DOMAIN f \cup {x} |-> IF y = x THEN v ELSE f[y]]
 FirstClose(st) == LET cs == {st.closeAt[s] : s \in {x \in Sides : st.closeAt[x] >= 0}} IN
                   IF cs = {} THEN -1 ELSE CHOOSE t \in cs : \A u \in cs : t <= u
 
-StateUpdated(st, side, old, new) ==
+\* an endpoint may hold more than one connection object (a server that saw a delayed duplicate of the first Initial):
+\* states are tracked per connection
+StateUpdated(st, side, gid, old, new, t) ==
+    LET key == <<side, gid>> IN
     IF Rank(new) = 100 THEN Fail(st, "unknown connection state logged")
-    ELSE IF Rank(new) <= Rank(st.state[side]) THEN Fail(st, "the connection state moved backwards or repeated (C17)")
-    ELSE [st EXCEPT !.state[side] = new]
+    \* "attempted" without a predecessor is the first event of a NEW connection object (the log cannot tell two server
+    \* connections created for two copies of the same first Initial apart: both carry the original DCID as group id)
+    ELSE IF new = "attempted" /\ old = "" THEN [st EXCEPT !.state = Put(@, key, new), !.stateAt = Put(@, key, t), !.closedEv = Put(@, key, 0)]
+    ELSE IF Rank(new) <= Rank(Get(st.state, key, "")) THEN Fail(st, "the connection state moved backwards or repeated (C17)")
+    ELSE [st EXCEPT !.state = Put(@, key, new), !.stateAt = Put(@, key, t)]
 
-ConnectionClosed(st, side) ==
-    IF st.closedEv[side] >= 1 THEN Fail(st, "the terminating error was fixed twice: a second connection_closed (C17)")
-    ELSE [st EXCEPT !.closedEv[side] = 1]
+ConnectionClosed(st, side, gid) ==
+    LET key == <<side, gid>> IN
+    IF Get(st.closedEv, key, 0) >= 1 THEN Fail(st, "the terminating error was fixed twice: a second connection_closed (C17)")
+    ELSE [st EXCEPT !.closedEv = Put(@, key, 1)]
 
 AppClose(st, side, t) == IF st.closeAt[side] < 0 THEN [st EXCEPT !.closeAt[side] = t] ELSE st
 Terminated(st, side, t) ==
@@ -73,8 +81,9 @@ WriteDone(st, side, sid, t) ==
        ELSE st
 
 \* what the endpoint puts on the wire after it entered closing/draining: only CONNECTION_CLOSE (with padding / acks)
-PacketSent(st, side, carriesData, t) ==
-    IF carriesData /\ Rank(st.state[side]) >= 7
+\* (a packet assembled concurrently with the close, in the same virtual instant, is not held against the endpoint)
+PacketSent(st, side, gid, carriesData, t) ==
+    IF carriesData /\ Rank(Get(st.state, <<side, gid>>, "")) >= 7 /\ t > Get(st.stateAt, <<side, gid>>, 0)
     THEN Fail(st, "application data emitted after the connection entered closing/draining (C17)")
     ELSE st
 
